@@ -53,11 +53,11 @@ type verifState struct {
 	rdMsgs      int
 	lastTerm    uint64
 	lastVote    uint64
-	rdPubLast   uint64 // last index of the Ready's committed entries (0 = none)
-	rdEntsLast  uint64 // last index of the Ready's new entries (0 = none)
-	rdSnapIdx   uint64 // index of the Ready's snapshot (0 = none)
-	savedMax    uint64 // largest index this node has saved to its WAL (or read from it at restart)
-	walLast     uint64 // last entry index the WAL returned at restart
+	rdPubLast   uint64               // last index of the Ready's committed entries (0 = none)
+	rdEntsLast  uint64               // last index of the Ready's new entries (0 = none)
+	rdSnapIdx   uint64               // index of the Ready's snapshot (0 = none)
+	savedMax    uint64               // largest index this node has saved to its WAL (or read from it at restart)
+	walLast     uint64               // last entry index the WAL returned at restart
 	storage     raft.IExtRaftStorage // raft's storage (verifStorage), read-only
 
 	out *os.File
